@@ -202,6 +202,10 @@ func (c *immuClient) _streamVerifiedSet(ctx context.Context, kvs []*stream.KeyVa
 		return nil, err
 	}
 
+	if err := checkVerifiableTx(verifiableTx); err != nil {
+		return nil, err
+	}
+
 	if verifiableTx.Tx.Header.Nentries != int32(len(kvs)) || len(verifiableTx.Tx.Entries) != len(kvs) {
 		return nil, store.ErrCorruptedData
 	}
@@ -310,6 +314,10 @@ func (c *immuClient) _streamVerifiedGet(ctx context.Context, req *schema.Verifia
 	vEntry, err := stream.ParseVerifiableEntry(
 		entryWithoutValueProto, verifiableTxProto, inclusionProofProto, vr, c.Options.StreamChunkSize)
 	if err != nil {
+		return nil, err
+	}
+
+	if err := checkVerifiableEntry(vEntry); err != nil {
 		return nil, err
 	}
 
